@@ -300,7 +300,10 @@ class Evaluator(abc.ABC):
 
             # Create a Job object from the input arguments
             job_id = self._storage.create_new_job(self._search_id)
-            self._storage.store_job_in(job_id, args=(args,))
+            # The storage keeps its own copy of the configuration (as the job does): the caller may
+            # edit or reuse the dict it passed, and the other evaluators attached to the same search
+            # read the configuration back from the storage (see ``gather_other_jobs_done``).
+            self._storage.store_job_in(job_id, args=(copy.deepcopy(args),))
             new_job = self._create_job(job_id, args, self.run_function, self._storage)
             self.job_id_submitted.append(job_id)
 
